@@ -327,6 +327,72 @@ theorem dirBytes_prefix (e : Endpoint) {fa fb : List Pipeline.OutPkt} (h : fa <+
   simp only [dirBytes, List.filter_append, List.flatMap_append]
   exact List.prefix_append _ _
 
+theorem filter_take {α : Type} (f : α → Bool) (l : List α) (k : Nat) :
+    (l.take k).filter f = (l.filter f).take ((l.take k).filter f).length := by
+  induction l generalizing k with
+  | nil => simp
+  | cons a l ih =>
+    cases k with
+    | zero => simp
+    | succ k =>
+      simp only [List.take_succ_cons, List.filter_cons]
+      cases f a with
+      | false => simpa using ih k
+      | true => simp only [if_true, List.length_cons, List.take_succ_cons, List.cons.injEq, true_and]; exact ih k
+
+/-- secrets blocks behind the last datagram change nothing for QUIC: a session reads the key log when a datagram arrives -/
+theorem quicView_append_dsbs (o : Opts) (A D : List (Item Keylog.Key)) (hD : ∀ it ∈ D, ∃ k, it = Item.dsb k) :
+    ∀ kl, quicView o kl (A ++ D) = quicView o kl A := by
+  induction A with
+  | nil =>
+    intro kl
+    simp only [List.nil_append]
+    induction D generalizing kl with
+    | nil => rfl
+    | cons it D ih =>
+      obtain ⟨k, rfl⟩ := hD it (by simp)
+      simp only [quicView, classify]
+      exact ih (fun x hx => hD x (by simp [hx])) _
+  | cons it A ih =>
+    intro kl
+    simp only [List.cons_append, quicView]
+    cases classify o it with
+    | keys ks => exact ih _
+    | tls p => exact ih _
+    | ignore w => exact ih _
+    | quic p b0 r => simp only [ih]
+
+/-- **C03, prefix clause, QUIC victim, `cut-after`.** From position `n` of the capture on the victim's datagrams are
+    missing. Restricted to the victim, session by session in creation order, the frames exported under the fault stand in
+    `CutRel` to the frames exported without it: all frames but the last unchanged, the last one at its place with the same
+    time and addresses and a payload PREFIX (a plain frame prefix when the last exported frame before the cut and the first
+    one after it differ in (capture time, direction): `ExportPropsQuic.export_cut_prefix_quic_items_split`); sessions that
+    start later are absent. The bystanders' capture is untouched (`export_victim_cut_tls`, first clause). -/
+theorem export_victim_cut_quic (o : Opts) (fk : Option (List Keylog.Key)) (C : List (Item Keylog.Key))
+    (victim : Pkt → Bool) (n : Nat) :
+    ListExt CutRel (quicFrames mask H P info o fk (only victim (cutVictim victim n C)))
+      (quicFrames mask H P info o fk (only victim C)) := by
+  have hshape : only victim (cutVictim victim n C) =
+      (only victim C).take ((only victim (C.take n)).length) ++ only (fun _ => false) (C.drop n) := by
+    unfold cutVictim
+    rw [only_append, only_only]
+    have hf : (fun p => victim p && !victim p) = fun _ => false := by funext p; cases victim p <;> rfl
+    rw [hf]
+    congr 1
+    exact filter_take _ C n
+  have hD : ∀ it ∈ only (fun _ : Pkt => false) (C.drop n), ∃ k, it = Item.dsb k := by
+    intro it hit
+    simp only [only, List.mem_filter] at hit
+    cases it with
+    | dsb k => exact ⟨k, rfl⟩
+    | frame p => simp at hit
+  have hq : quicFrames mask H P info o fk (only victim (cutVictim victim n C)) =
+      quicFrames mask H P info o fk ((only victim C).take ((only victim (C.take n)).length)) := by
+    unfold quicFrames quicSess
+    rw [hshape, quicView_append_dsbs o _ _ hD]
+  rw [hq]
+  exact export_cut_prefix_quic_items mask H P info o fk (only victim C) _
+
 end Prefix
 
 end TLX.Props.ExportFaults
